@@ -1,6 +1,8 @@
 -- Root of the `Glb` library: everything that must build (models, specs, proofs, property theorems, ties).
 import Glb.Basic
 import Glb.Model.Filter
+import Glb.Model.Utf8
+import Glb.Generated.Logger
 import Glb.Proofs.Filter
 import Glb.Props.C11
 import Glb.Tie.Filter
